@@ -4,7 +4,9 @@ package main
 
 import (
 	"fmt"
+	"go/ast"
 	"go/constant"
+	"go/parser"
 	"go/token"
 	"go/types"
 	"math/big"
@@ -95,14 +97,22 @@ func (u *Unit) sortOfTypeStr(ts string) (*Sort, types.Type) {
 		vs, _ := u.sortOfTypeStr(inner[i+1:])
 		return u.c.arrSort(ks, vs), nil
 	}
-	tv, err := types.Eval(u.pkg.Fset, u.pkg.Types, token.NoPos, ts)
-	if err != nil {
-		sfail("cannot resolve type %q: %v", ts, err)
-	}
 	if ts == "int" {
 		return sortInt, nil // spec ints are mathematical
 	}
-	return u.c.sortOf(tv.Type), tv.Type
+	ex, err := parser.ParseExpr(ts)
+	if err != nil {
+		sfail("cannot parse type %q: %v", ts, err)
+	}
+	gt := u.resolveType(ex)
+	if gt == nil {
+		tv, err := types.Eval(u.pkg.Fset, u.pkg.Types, token.NoPos, ts)
+		if err != nil {
+			sfail("cannot resolve type %q: %v", ts, err)
+		}
+		gt = tv.Type
+	}
+	return u.c.sortOf(gt), gt
 }
 
 func (u *Unit) ensureAxioms() {
@@ -727,6 +737,9 @@ func (env *Env) evalCall(e *SX) Term {
 		return app(sortInt, "div", app(sortInt, "Time.ns", x), tInt(1000000000))
 	case "ns":
 		return app(sortInt, "Time.ns", ev(0))
+	case "mktime":
+		ts := c.timeSort()
+		return app(ts, ts.Ctor, ev(0))
 	case "iszero":
 		return tEq(app(sortInt, "Time.ns", ev(0)), Term{S: "time.zero", Sort: sortInt})
 	case "uint32", "uint64", "uint8", "uint16", "uint":
@@ -878,4 +891,55 @@ func hasQuant(e *SX) bool {
 		}
 	}
 	return false
+}
+
+// resolveType resolves a Go type expression written in a contract (package-qualified names via the package's imports).
+func (u *Unit) resolveType(e ast.Expr) types.Type {
+	switch t := e.(type) {
+	case *ast.Ident:
+		if obj := u.pkg.Types.Scope().Lookup(t.Name); obj != nil {
+			if tn, ok := obj.(*types.TypeName); ok {
+				return tn.Type()
+			}
+		}
+		if obj := types.Universe.Lookup(t.Name); obj != nil {
+			if tn, ok := obj.(*types.TypeName); ok {
+				return tn.Type()
+			}
+		}
+	case *ast.SelectorExpr:
+		if id, ok := t.X.(*ast.Ident); ok {
+			for _, imp := range u.pkg.Types.Imports() {
+				if imp.Name() == id.Name {
+					if tn, ok := imp.Scope().Lookup(t.Sel.Name).(*types.TypeName); ok {
+						return tn.Type()
+					}
+				}
+			}
+			// any loaded package with that name
+			for _, p := range u.world.pkgs {
+				if p.Types != nil && p.Types.Name() == id.Name {
+					if tn, ok := p.Types.Scope().Lookup(t.Sel.Name).(*types.TypeName); ok {
+						return tn.Type()
+					}
+				}
+			}
+		}
+	case *ast.StarExpr:
+		if el := u.resolveType(t.X); el != nil {
+			return types.NewPointer(el)
+		}
+	case *ast.ArrayType:
+		if el := u.resolveType(t.Elt); el != nil && t.Len == nil {
+			return types.NewSlice(el)
+		}
+	case *ast.MapType:
+		k, v := u.resolveType(t.Key), u.resolveType(t.Value)
+		if k != nil && v != nil {
+			return types.NewMap(k, v)
+		}
+	case *ast.ParenExpr:
+		return u.resolveType(t.X)
+	}
+	return nil
 }
